@@ -276,6 +276,12 @@ func TestVerifC30(t *testing.T) {
 		"right digest of another algorithm} x sha256 member {right, digest of the bit-flipped blob, empty, upper-case} x what the storage " +
 		"returns {exact, 1 bit flipped, truncated, extended, empty, nil, fetch error, data+error} x blob; non-trivial = anything but " +
 		"'exact object, all members right, no limit'; signature = API, flags, algorithm, member classes, storage class, outcome. " +
+		"library history part: ONE long-lived reader instance {Consumer.Unwrap, Resolver.Resolve (MaxSize 0 / len), a new Record per read on one " +
+		"Consumer, one Record re-read} x validation flag x envelope form x every ordered sequence of 2 (thorough 3) reads, the stored object being " +
+		"rewritten before each read to {intact, 1 bit flipped, truncated, extended, replaced by another valid object, fetch error}: (a) the same " +
+		"envelope every time, all envelope forms; (b) sequences naming >= 2 of the envelopes E1=(K1,P) E2=(K1,Q) E3=(K2,P) (shared key / shared " +
+		"checksum), core forms; every read is judged like a single-shot case; non-trivial = anything but 'E1 intact every time, all members right'; " +
+		"signature = reader, flags, form, per read (envelope, storage state, outcome). " +
 		"proxy part (cmd/proxy, handleHTTPDownload with fake s3API): case = request (mode {default,stream,presign} x integrity.sha256 " +
 		"{of the uploaded blob, of the stored object, upper-case, padded, unrelated, empty, non-hex, short, no integrity block} x " +
 		"integrity.size {len(blob), len(stored), len+1, len-1, omitted, -1} x checksum_alg x proxy max blob) x bucket content {exact, " +
@@ -291,6 +297,14 @@ func TestVerifC30(t *testing.T) {
 	if ok, err := vh.LoadReplay(&rp); ok {
 		if err != nil {
 			t.Fatalf("HARNESS-ERROR C30: replay: %v", err)
+		}
+		if rp.API == "history" {
+			var hc c30HCase
+			if _, err := vh.LoadReplay(&hc); err != nil {
+				t.Fatalf("HARNESS-ERROR C30: replay: %v", err)
+			}
+			c30History(t, rep, &hc)
+			return
 		}
 		if rp.API != "resolve" && rp.API != "unwrap" {
 			t.Skipf("replay belongs to another part of C30 (api=%q)", rp.API)
@@ -418,5 +432,8 @@ func TestVerifC30(t *testing.T) {
 	}
 	if served == 0 && vh.ReplayFile() == "" {
 		t.Fatalf("HARNESS-ERROR C30: no case returned a payload; the check would be vacuous")
+	}
+	if vh.ReplayFile() == "" {
+		c30History(t, rep, nil)
 	}
 }
